@@ -31,7 +31,7 @@ SPEC = {
              "non-trivial = every case"),
     "boundscheck": {"quick": False, "thorough": True},
     "case_timeout": 400.0,
-    "deciding_monitors": ["Linop.apply"],
+    "deciding_monitors": ["Linop.apply", "in:complex64"],
     "assumptions": ["dense matrices of the real operator (<= 64 unknowns) define A for the "
                     "reconstruction references", "L1WaveletRecon only with a verified unitary W"],
 }
